@@ -22,7 +22,10 @@ def attribute_pattern_name(model: Model) -> str:
     from ..anchors import filt as filter_anchors
     from ..rx.sites import find_sites
     fa = filter_anchors(model)
-    names = {s.name for s in find_sites(model) if s.api == "match" and s.name != "<inline>" and not s.nested and any(s.func == f.qualname for f in fa.parser_functions)}
+    sites = find_sites(model)
+    # functions used as substitution callbacks are not part of the parser proper (they see one escape at a time)
+    callbacks = {model.resolve_name(s.module, s.callback.id) for s in sites if s.api == "sub" and isinstance(s.callback, ast.Name)}
+    names = {s.name for s in sites if s.api == "match" and s.name != "<inline>" and not s.nested and s.func not in callbacks and any(s.func == f.qualname for f in fa.parser_functions)}
     if len(names) != 1:
         raise AnalysisError(f"attribute-description pattern not identified (candidates: {sorted(names)})")
     return names.pop()
